@@ -3,6 +3,8 @@
 # Applies a seeded change to /repo, runs the command, and always restores /repo.
 set -u
 patch="$(realpath "$1")"; shift
+# builds of concurrently running checks wait while the change is applied (see build() in /verif/check)
+mkdir -p /verif/.build; exec 9>/verif/.build/repo.lock; flock 9; export VERIF_LOCK_HELD=1
 if [ -n "$(git -C /repo status --porcelain --untracked-files=no)" ]; then echo "/repo not clean" >&2; exit 3; fi
 git -C /repo apply "$patch" || { echo "patch does not apply" >&2; exit 3; }
 VERIF_EVIDENCE_DIR=/verif/.build/evidence-seeded "$@"; rc=$?
